@@ -66,6 +66,17 @@ CLAIMS["C25"] = (
     "'the queue is what newBalancer built'; the pigeonhole step from rrStep to the window statement is a meta-argument.",
     "DESIGN.md section 4, C25")
 
+CLAIMS["C11"] = (
+    "Writer: every Write issued by Conn.WritePacket is one well-formed frame (call-site obligations: 3-byte little-endian length = "
+    "min(remaining, 2^24-1), the running sequence id, exactly the next payload bytes), an empty terminating frame is written exactly after a "
+    "payload that is a positive multiple of 2^24-1, and on success the sequence id has advanced by len/MAX+1 (ghost frame counter, loop "
+    "invariant, unbounded payload). Reader: readHeaderFrom accepts a frame only with the expected sequence id (also for empty frames), "
+    "advances it by one and returns the 24-bit length; readOnePacket consumes exactly one frame.",
+    "Trusted: io.ReadFull fills the buffer or fails, io.Writer.Write, bytes.Buffer (NewBuffer/Write/Bytes contracts). NOT under contract: the "
+    "reassembly loops of readPacket / ReadEphemeralPacket(Direct) (concatenation of frame payloads, pooled buffers), so 'the reader "
+    "reassembles the original payload' is decided per frame only.",
+    "DESIGN.md section 4, C11")
+
 NA = {
 }
 
